@@ -123,6 +123,15 @@ def impl(case):
                 r["star"] = _enc(ty, s)
                 laws["star_left"] = (s, add(one, mul(a, s)))
                 laws["star_right"] = (s, add(one, mul(s, a)))
+            # accumulation `acc = a; acc += b` is pure: acc is a + b, and neither `a` nor the shared constants change
+            before = (_enc(ty, a), _enc(ty, zero), _enc(ty, one))
+            acc = a
+            acc += b
+            acc2 = one
+            acc2 += mul(a, b)
+            laws["iadd_value"] = (acc, add(a, b))
+            laws["iadd_from_one"] = (acc2, add(one, mul(a, b)))
+            r["iadd_pure"] = before == (_enc(ty, a), _enc(ty, zero), _enc(ty, one))
             r["laws"] = {k: [_enc(ty, l), _enc(ty, rr)] for k, (l, rr) in laws.items()}
             out.append(r)
         except Exception as e:  # noqa
@@ -261,6 +270,8 @@ def run(ctx):
                 semantic.append(_viol(ty, "exception", tr, r))
                 continue
             nontrivial.add(hashlib.sha1(json.dumps([ty, tr], sort_keys=True).encode()).hexdigest())
+            if r.get("iadd_pure") is False:
+                semantic.append(_viol(ty, "iadd_pure", tr, {"what": "`acc = a; acc += b` or `acc = one; acc += a*b` changed a, zero or one"}))
             for law, (l, rr) in r["laws"].items():
                 evaluations += 1
                 stats[ty]["law_evals"] += 1
